@@ -449,6 +449,7 @@ type ContractFile struct {
 	Lemmas    []*Lemma
 	Ghosts    []GhostField
 	SMT       []string // raw prelude lines
+	GoLines   []string // executable oracles for replays
 	Imports   []string
 }
 
@@ -545,6 +546,10 @@ func parseContractFile(path, pkg string) (*ContractFile, error) {
 			cf.Ghosts = append(cf.Ghosts, GhostField{pkg, tf[:i], tf[i+1:], sort})
 		case "smt":
 			cf.SMT = append(cf.SMT, rest)
+		case "go":
+			// executable form of a spec function, used only by counterexample replays:
+			// //@ go func oracle_<name>(...) bool { ... }
+			cf.GoLines = append(cf.GoLines, rest)
 		case "import":
 			cf.Imports = append(cf.Imports, rest)
 		case "assume-ensures":
